@@ -198,6 +198,46 @@ def shrink(mod, plan, violation, budget_s=120, log=None):
     return best, steps
 
 
+def shrink_and_run(mod, prop, plan, violation, budget_s):
+    """minimise (budget_s > 0) and execute the final plan once more to record its digest – in an interpreter of
+    the plan's optimisation mode (C05 plans of mode O1 only make sense under `python -O`)"""
+    want_opt = plan.get("_mode", "O0") == "O1"
+    if want_opt == (sys.flags.optimize > 0):
+        steps = 0
+        if budget_s > 0:
+            plan, steps = shrink(mod, plan, violation, budget_s=budget_s)
+        res = run_one(mod, plan)
+        vio = next((v for v in res["violations"] if v["key"] == violation["key"]), violation)
+        return plan, steps, {"digest": res.get("digest")}, vio
+    scratch = os.environ.get("VERIF_SCRATCH", "/dev/shm")
+    fin = os.path.join(scratch, "verif-part-%d-shrink-in.json" % os.getpid())
+    fout = os.path.join(scratch, "verif-part-%d-shrink-out.json" % os.getpid())
+    with open(fin, "w") as fd:
+        json.dump({"plan": plan, "violation": violation, "budget": budget_s}, fd)
+    try:
+        cmd = [PY] + (["-O"] if want_opt else []) + [os.path.join(VERIF, "check"), prop, "--shrink-file", fin, "--out", fout]
+        rc = subprocess.call(cmd)
+        if rc != 0 or not os.path.exists(fout):
+            return plan, 0, {"digest": None}, violation
+        with open(fout) as fd:
+            o = json.load(fd)
+        return o["plan"], o["steps"], {"digest": o["digest"]}, o["violation"]
+    finally:
+        for f in (fin, fout):
+            if os.path.exists(f):
+                os.unlink(f)
+
+
+def shrink_file(prop, fin, fout):
+    mod = load_check(prop)
+    with open(fin) as fd:
+        d = json.load(fd)
+    plan, steps, res, vio = shrink_and_run(mod, prop, d["plan"], d["violation"], d["budget"])
+    with open(fout, "w") as fd:
+        json.dump({"plan": plan, "steps": steps, "digest": res["digest"], "violation": vio}, fd)
+    return 0
+
+
 def replay_file(prop, path):
     mod = load_check(prop)
     with open(path) as fd:
@@ -318,12 +358,8 @@ def finish(mod, prop, tier, seed, parts, t0, workers):
                 prop, key, len(lst), lst[0]["run"], known_active[key].get("what", "")))
             continue
         first = lst[0]
-        if len(reported) < 6:
-            plan, steps = shrink(mod, first["plan"], first["violation"], budget_s=90 if tier == "quick" else 300)
-            res = run_one(mod, plan)
-            vio = next((v for v in res["violations"] if v["key"] == key), first["violation"])
-        else:
-            plan, steps, res, vio = first["plan"], 0, {"digest": None}, first["violation"]
+        budget = (90 if tier == "quick" else 300) if len(reported) < 6 else 0      # later keys: recorded unshrunk
+        plan, steps, res, vio = shrink_and_run(mod, prop, first["plan"], first["violation"], budget)
         path = os.path.join(VERIF, "replays", "%s-%s-%s-%s.json" % (
             prop, seed, first["run"], hashlib.sha1(key.encode()).hexdigest()[:8]))
         with open(path, "w") as fd:
